@@ -40,6 +40,11 @@ static int spec_match(const char *hp, long HL, const char *d, long DL)
 }
 
 #ifndef CV_NATIVE
+/* copy the inputs into harness locals, byte by byte: puts every byte into the counterexample trace (native replay reads hs/ds) */
+/* (a separate function: a loop inside the harness function itself makes the loop-contract pass inline the callee and lose its contracts) */
+char hs[N], ds[N];
+static void trace_inputs(const char *h, const char *d) { for (int ti = 0; ti < N; ti++) { hs[ti] = h[ti]; ds[ti] = d[ti]; } }
+#define TRACE_INPUTS() trace_inputs(h, d)
 static void setup(char *h, char *d)
 {
     h[N - 1] = 0; d[N - 1] = 0;
@@ -58,6 +63,7 @@ void h_safety(void)
     char h[N], d[N]; int flags;
     setup(h, d);
     int r = matchDomainName(h, d, (MatchDomainNameFlags)flags);
+    TRACE_INPUTS();
     __CPROVER_assert(h[N - 1] == 0 && d[N - 1] == 0, "ensures: inputs not written (sentinels)");
     __CPROVER_assert(!(gHL == 0) || r == -1, "ensures: a host that is empty after removing leading dots is 'less' (-1), never a match");
 #ifdef TWIN_EMPTY
@@ -82,6 +88,8 @@ void h_semantics(void)
     char h[N], d[N];
     setup(h, d);
     int r = matchDomainName(h, d, mdnNone);
+    const int flags = 0;
+    TRACE_INPUTS();
     const char *hp = h + gdots;
     int m = spec_match(hp, gHL, d, gDL);
 #ifdef TWIN_IFF
